@@ -70,6 +70,10 @@ func main() {
 		stageCanon()
 	case "baseimage":
 		stageBaseImage()
+	case "history":
+		stageHistory()
+	case "one-build":
+		stageOneBuild()
 	default:
 		fatal("unknown stage %q", *stage)
 	}
@@ -230,6 +234,64 @@ func stageMatrix() {
 			}
 			slow.Store(a)
 			c := with(refCell, "no-sde+late-architecture="+a, func(c *cell) { c.SDE = "" })
+			res := e.run(c)
+			builds++
+			secs += res.Seconds
+			if i == 0 {
+				if res.Err != "" {
+					fmt.Printf("IMPL-VIOLATION tag=reference-build-fails %s\n", jsonOf(map[string]any{"configuration": cfg.Name, "cmd": res.Cmd, "error": res.Err}))
+					failed++
+					break
+				}
+				ref = res
+			}
+			if res.Err != "" {
+				failed++
+			}
+			w.Add(buildCase(cfg.Name, ref, res))
+		}
+		srv.Close()
+	}
+	// ---- two repositories offering the same name and version ---------------------------------------------------
+	// a mirror next to the primary repository: `dup` 1.0-r0 is in both, as different files. Which one is installed
+	// is decided by the (sorted) repository list — not by which index answers first: each repository's
+	// APKINDEX.tar.gz is served late in turn
+	if buildsTimedOut == 0 {
+		mk := func(name, content string) *synthrepo.Pkg {
+			return &synthrepo.Pkg{Name: name, Version: "1.0-r0", Arch: "x86_64", Origin: name, License: "MIT", Description: name, BuildTime: 1700000000,
+				Files: append(dirs("usr", "usr/share", "usr/share/"+name), synthrepo.File{Name: "usr/share/" + name + "/f", Mode: 0o644, Content: []byte(content)})}
+		}
+		mroot := filepath.Join(root, "mirrors")
+		ra, err := synthrepo.Write(filepath.Join(mroot, "a"), key, []*synthrepo.Pkg{mk("dup", "the primary repository's build\n"), mk("only-a", "a\n"), mk("both", "same in both\n")})
+		if err != nil {
+			fatal("synthrepo: %v", err)
+		}
+		if _, err := synthrepo.Write(filepath.Join(mroot, "b"), key, []*synthrepo.Pkg{mk("dup", "the mirror's build, other bytes\n"), mk("only-b", "b\n"), mk("both", "same in both\n")}); err != nil {
+			fatal("synthrepo: %v", err)
+		}
+		var slow atomic.Value
+		slow.Store("")
+		fsrv := http.FileServer(http.Dir(mroot))
+		srv := httptest.NewServer(http.HandlerFunc(func(rw http.ResponseWriter, req *http.Request) {
+			if a := slow.Load().(string); a != "" && strings.HasPrefix(req.URL.Path, "/"+a+"/") && strings.HasSuffix(req.URL.Path, "APKINDEX.tar.gz") {
+				time.Sleep(600 * time.Millisecond)
+			}
+			fsrv.ServeHTTP(rw, req)
+		}))
+		cfg := imageCfg{Name: "two-repositories", Packages: []string{"dup", "only-a", "only-b", "both"}, Archs: []string{"x86_64"}, Lean: true}
+		e := &env{root: root, apko: apko, repoURL: srv.URL, keyPath: ra.KeyPath(), cfgName: cfg.Name}
+		e.cfgYAML = cfg.yaml(srv.URL+"/a\n    - "+srv.URL+"/b", ra.KeyPath())
+		var ref buildResult
+		for i, a := range []string{"", "a", "b", "a"} {
+			if buildsTimedOut > 0 {
+				break
+			}
+			slow.Store(a)
+			dim := "late-index-of-repository=" + a
+			if i == 0 {
+				dim = "reference"
+			}
+			c := with(refCell, dim, func(c *cell) {})
 			res := e.run(c)
 			builds++
 			secs += res.Seconds
